@@ -299,6 +299,46 @@ class _Levy:
         self.env = {}
         self.draws = []           # source text of each Gaussian call
         self.ral = _module_alias(tree, 'opytimizer.math.random')
+        self.helpers = {}         # module-level functions of the same module, by name (None = defined more than once / rebound)
+        for st in tree.body:
+            names = [st.name] if isinstance(st, (ast.FunctionDef, ast.ClassDef)) else \
+                [t.id for t in getattr(st, 'targets', []) if isinstance(t, ast.Name)]
+            for nm in names:
+                self.helpers[nm] = st if isinstance(st, ast.FunctionDef) and nm not in self.helpers else None
+        self.stack = []           # helpers being inlined (no recursion)
+
+    def inline(self, call, helper):
+        """same-module pure helper: positional parameters substituted by the (already translated) arguments, body =
+        straight-line single assignments of temporaries + one return.  The helper must not draw: the order of the
+        Gaussian draws stays the statement order of the caller."""
+        f = self.file
+        if helper.name in self.stack:
+            raise TranslationError(f, call, 'recursive helper `%s`' % helper.name)
+        ps = _params(helper, f)
+        if helper.decorator_list or helper.args.defaults or call.keywords or len(call.args) != len(ps):
+            raise TranslationError(f, call, 'helper `%s` must be called with exactly its positional parameters' % helper.name)
+        args = [self.expr(a) for a in call.args]              # arguments are evaluated before the call, left to right
+        saved = (self.env, self.beta, self.size, len(self.draws))
+        self.env, self.beta, self.size = dict(zip(ps, args)), None, None
+        self.stack.append(helper.name)
+        try:
+            body = body_wo_doc(helper)
+            if not body or not isinstance(body[-1], ast.Return) or body[-1].value is None:
+                raise TranslationError(f, helper, 'helper `%s` must end with `return <expression>`' % helper.name)
+            for s in body[:-1]:
+                if not (isinstance(s, ast.Assign) and len(s.targets) == 1 and isinstance(s.targets[0], ast.Name)):
+                    raise TranslationError(f, s, 'helper `%s`: only simple assignments of temporaries are recognised' % helper.name)
+                nm = s.targets[0].id
+                if nm in self.env:
+                    raise TranslationError(f, s, 'helper `%s`: `%s` is assigned twice / shadows a parameter' % (helper.name, nm))
+                self.env[nm] = self.expr(s.value)
+            out = self.expr(body[-1].value)
+            if len(self.draws) != saved[3]:
+                raise TranslationError(f, helper, 'helper `%s` consumes random draws' % helper.name)
+            return out
+        finally:
+            self.stack.pop()
+            self.env, self.beta, self.size = saved[0], saved[1], saved[2]
 
     def expr(self, n):
         f = self.file
@@ -330,6 +370,12 @@ class _Levy:
             return '(%s %s %s)' % (ops[type(n.op)], left, right)
         if isinstance(n, ast.Call):
             name = ast.unparse(n.func)
+            if isinstance(n.func, ast.Name) and n.func.id in self.env:
+                raise TranslationError(f, n, 'call of the local `%s`' % n.func.id)
+            if isinstance(n.func, ast.Name) and n.func.id in self.helpers and n.func.id in self.math:
+                raise TranslationError(f, n, '`%s` is both imported from math and defined in the module' % n.func.id)
+            if isinstance(n.func, ast.Name) and self.helpers.get(n.func.id) is not None:
+                return self.inline(n, self.helpers[n.func.id])
             if isinstance(n.func, ast.Name) and self.math.get(n.func.id) in ('gamma', 'sin') or name in ('math.gamma', 'math.sin'):
                 which = self.math.get(n.func.id) if isinstance(n.func, ast.Name) else name.split('.')[1]
                 if len(n.args) != 1 or n.keywords:
